@@ -662,6 +662,11 @@ func regRun(e *Env) {
 	cfg.Server = server
 	cfg.PingFreq = pingFreq
 	cfg.Flood = g.Bool()
+	// the dial timeout plays no part in what is registered: the default, "wait
+	// indefinitely" (0), short and long ones
+	if tmo := []time.Duration{-1, -1, -1, 0, time.Second, 10 * time.Minute}[g.Intn(6)]; tmo >= 0 {
+		cfg.Timeout = tmo
+	}
 	if ctxDial {
 		cfg.Proxy = "simctx://p"
 	} else {
@@ -1604,6 +1609,14 @@ func logRun(e *Env) {
 		cfg.SSL = true
 		cfg.SSLConfig = &tls.Config{InsecureSkipVerify: true}
 	}
+	// the whole session through TLS, with a real crypto/tls server behind the
+	// simulated socket: what is logged is the plain text either way
+	tlsOn := (fault == 0 || fault == 3 || fault == 4) && g.Pct(25)
+	if tlsOn {
+		cfg.SSL = true
+		cfg.SSLConfig = &tls.Config{InsecureSkipVerify: true}
+		e.S.Count("probe.password-over-tls")
+	}
 	stall := time.Duration(0)
 	if fault == 7 {
 		// the write of the first lines (the PASS line among them) makes no progress
@@ -1629,7 +1642,7 @@ func logRun(e *Env) {
 	}
 	e.LinkPlan = func(l *simnet.Link) {
 		l.ChunkMode = g.Intn(4)
-		if fault == 6 && l.ID == 1 {
+		if (fault == 6 && l.ID == 1) || tlsOn {
 			// the TLS ClientHello carries bytes from crypto/rand: sizes only in the event log
 			l.Opaque = true
 		}
@@ -1655,6 +1668,41 @@ func logRun(e *Env) {
 		if fault == 6 && l.ID == 1 {
 			// nothing that speaks TLS behind the socket
 			l.CloseByServer()
+			return
+		}
+		if tlsOn {
+			tc := tls.Server(&simnet.ServerConn{L: l}, simTLSConfig())
+			e.S.Spawn(fmt.Sprintf("tls-server%d", l.ID), func() {
+				if tc.Handshake() != nil {
+					return
+				}
+				buf := make([]byte, 0, 4096)
+				tmp := make([]byte, 2048)
+				for {
+					n, err := tc.Read(tmp)
+					buf = append(buf, tmp[:n]...)
+					for {
+						i := strings.IndexByte(string(buf), '\n')
+						if i < 0 {
+							break
+						}
+						ln := strings.TrimRight(string(buf[:i]), "\r")
+						buf = buf[i+1:]
+						if ln == "PASS "+pw {
+							sawPass = true
+						}
+						if ln == "CAP LS" {
+							tc.Write([]byte(":irc.sim CAP * LS :\r\n"))
+						}
+						if strings.HasPrefix(ln, "USER ") {
+							tc.Write([]byte(":irc.sim 001 me :Welcome me!ident@host.sim\r\n:irc.sim 464 me :Password accepted\r\n"))
+						}
+					}
+					if err != nil {
+						return
+					}
+				}
+			})
 			return
 		}
 		e.S.Spawn(fmt.Sprintf("server%d", l.ID), func() {
